@@ -273,7 +273,10 @@ def rule_formulas(repo: Repo, rep: Report) -> int:
             n += 1
     md = repo.method(ci, "minimum_distance")
     r = returns_of(md.node)
-    if r:
+    if r and isinstance(r[0].value, ast.Attribute) and attr_chain(r[0].value) in vals and attr_chain(r[0].value) not in ("self._extended",):
+        # the distance is precomputed by the constructor: its defining expression is judged on the constructor's parameters
+        formula_grid(rep, "FORMULA", init, f"Hamming advertised distance ({attr_chain(r[0].value)} set by the constructor)", vals[attr_chain(r[0].value)], grid, lambda p: 4 if p["extended"] else 3)
+    elif r:
         formula_grid(rep, "FORMULA", md, "Hamming advertised distance", r[0].value, [{"self._extended": e} for e in (False, True)], lambda p: 4 if p["self._extended"] else 3)
     else:
         rep.undecided("FORMULA", md, "Hamming advertised distance", "no return")
